@@ -16,6 +16,7 @@ Require Import V.Proofs.AppenderSteps.
 Require Import V.Proofs.AppenderFaa.
 Require Import V.Proofs.AppenderRotate.
 Require Import V.Proofs.AppenderSystem.
+Require Import V.Proofs.AppenderInv2.
 From Coq Require Import ZifyBool.
 Open Scope Z_scope.
 
@@ -114,10 +115,11 @@ Section C02.
       + left. assumption.
       + rewrite Tg1. intros; lia.
       + intros g Hg. fold n0 in Hg. lia.
-      + intros p Hp. destruct (part_cases n0 p Hp) as [-> | [-> | ->]].
-        * rewrite Tg0, To0. intros _. cbn. unfold base. fold n0. rewrite Z.eqb_refl. reflexivity.
-        * rewrite Tg1. fold n0. intros; lia.
-        * rewrite Tg2. fold n0. intros; lia.
+      + intros g Hg. exists (base c g). split; [reflexivity|]. intros p Hp Hq.
+        destruct (part_cases n0 p Hp) as [-> | [-> | ->]].
+        * rewrite Tg0 in Hq. subst g. rewrite To0. unfold base. fold n0. rewrite Z.eqb_refl. reflexivity.
+        * rewrite Tg1 in Hq. fold n0 in Hg. lia.
+        * rewrite Tg2 in Hq. fold n0 in Hg. lia.
       + intros g _. split; reflexivity.
       + intros p Hp X. discriminate X.
     - intros g e [].
@@ -139,6 +141,41 @@ Section C02.
           apply (env_step_inv c s gh (pubs th) (SetLimit v)); assumption.
         * apply (AppInv_Pext _ _ (pubs th)); [eapply pubs_upd_env; eauto|].
           apply (env_step_inv c s gh (pubs th) (Clean p)); assumption. Qed.
+
+  Lemma init_inv2 limit P : (forall t l, P t = Some l -> exists msgs b, l = p_start msgs b []) ->
+    AppInv2 c (init_shared c limit) ghost0 P.
+  Proof. intros HPi. constructor.
+    - intros t l H. destruct (HPi t l H) as (m & b & ->). unfold p_start. destruct m; destruct b; cbn; discriminate.
+    - intros t l j pos H Hn. destruct (HPi t l H) as (m & b & ->). rewrite p_res_start in Hn. destruct j; discriminate.
+    - intros t l r H Hin. destruct (HPi t l H) as (m & b & ->). rewrite p_res_start in Hin. destruct Hin.
+    - intros X. exfalso. destruct (init_tails limit) as (_ & T1 & _).
+      pose proof (wf_n0 c W) as Hn0. change (sh_count (init_shared c limit)) with (c_n0 c) in X.
+      unfold tg in X. rewrite T1 in X. rewrite gen_of_mk_raw in X; [lia | unfold gen_ok, GB in *; lia | unfold two32; lia].
+    - intros (e & [] & _).
+    - reflexivity.
+    - intros g g' e e' []. Qed.
+
+  Theorem reach_inv2 s th gh : reach s th gh -> AppInv2 c s gh (pubs th).
+  Proof. induction 1 as [limit th Hinit | s th gh t s' x' e Hr IH Hadm Hstep].
+    - apply init_inv2. intros t l HP. unfold pubs in HP. specialize (Hinit t). destruct (th t); try discriminate.
+      inversion HP; subst. exact Hinit.
+    - pose proof (reach_inv s th gh Hr) as I.
+      assert (Pext : forall P P', (forall t, P t = P' t) -> forall s0 gh0, AppInv2 c s0 gh0 P -> AppInv2 c s0 gh0 P').
+      { intros P P' E s0 gh0 [R1 R2 R3 R4 R5 R6 R7]. constructor; auto.
+        - intros t0 l0 H0. rewrite <- E in H0. eapply R1; eauto.
+        - intros t0 l0 j pos H0. rewrite <- E in H0. eapply R2; eauto.
+        - intros t0 l0 r H0. rewrite <- E in H0. eapply R3; eauto.
+        - intros X. destruct (R4 X) as (t0 & l0 & H0 & Y). exists t0, l0. rewrite <- E. auto.
+        - intros X. destruct (R5 X) as (t0 & l0 & H0 & Y). exists t0, l0. rewrite <- E. auto. }
+      unfold sys_adm in Hadm. unfold sys_gstep. unfold tstep in Hstep.
+      destruct (th t) as [l | l |] eqn:Eth; try discriminate.
+      + destruct (pstep c t s l) as [[[s1 l1] e1]|] eqn:Ep; try discriminate. inversion Hstep; subst s' x' e.
+        apply (Pext (pupd (pubs th) t l1)); [apply pubs_upd_pub|].
+        eapply pub_step_inv2; eauto. unfold pubs. rewrite Eth. reflexivity.
+      + unfold estep in Hstep. destruct (e_ops l) as [|op r] eqn:Eops; try discriminate.
+        destruct op as [v | p]; inversion Hstep; subst s' x' e.
+        * apply (Pext (pubs th)); [eapply pubs_upd_env; eauto|]. apply (env_step_inv2 c s gh (pubs th) (SetLimit v)); assumption.
+        * apply (Pext (pubs th)); [eapply pubs_upd_env; eauto|]. apply (env_step_inv2 c s gh (pubs th) (Clean p)); assumption. Qed.
 
   (* ---- the executable run of Sched.run follows reach when its steps are admissible ---- *)
   Definition rs_ok (r : @rstate shared thread) (gh : ghost) : Prop :=
